@@ -46,6 +46,9 @@ def shallow(v):
     return repr(v)
 
 
+_KEEP = []
+
+
 def walk(obj, ty, prefix="", out=None, unknown=None):
     """kind -> list of (id, shallow snapshot) for every mutable container below obj."""
     from broadbean.blueprint import BluePrint
@@ -55,6 +58,8 @@ def walk(obj, ty, prefix="", out=None, unknown=None):
     unknown = [] if unknown is None else unknown
 
     def add(kind, c):
+        _KEEP.append(c)          # keep every container alive: a freed container's id() may be reused by a new object,
+        #                          which would then look like the old container changed in place
         out.setdefault(prefix + kind, []).append((id(c), shallow(c)))
     add("attrs", obj.__dict__)
     if isinstance(obj, BluePrint):
@@ -304,6 +309,7 @@ def check_tables(seed, rounds):
         for table, maker in (("mutators", None), ("readonly", None)):
             names = list(TABLE[table])
             for name in names:
+                del _KEEP[:]
                 o = make_objects(rng)
                 calls = mutator_calls(o, rng) if table == "mutators" else {k: (k.split(".")[0], v) for k, v in readonly_calls(o).items()}
                 if name not in calls:
